@@ -33,6 +33,7 @@ CHECKS["C18"] = {
         rapid_job("segments", "./verifh/c18", "TestSegmentOps|TestSegmentSum", 30000, 150000),
         rapid_job("modes", "./verifh/c18", "TestModeOps|TestModeSum", 30000, 150000),
         rapid_job("sum-overlap", "./verifh/c18", "TestSumOverlappingCalls", 150, 600, shards={Q: 2, T: 8}),
+        rapid_job("shared-mode", "./verifh/c18", "TestModeOpsOnSharedMode", 400, 3000, race=True, shards={Q: 2, T: 8}),
     ],
 }
 
@@ -98,6 +99,7 @@ CHECKS["C17"] = {
         enum_job("caller-context", "./verifh/c17", "TestGroupCallerContextDone"),
         rapid_job("random", "./verifh/c17", "TestGroupRandom", 1500, 8000, shards_t=8),
         rapid_job("trait-groups", "./verifh/c17", "TestTraitGroups", 800, 5000, shards_t=8),
+        rapid_job("pull-subscriber-gone", "./verifh/c17", "TestGroupPullSubscriberGone", 150, 1000, shards={Q: 2, T: 8}),
     ],
 }
 
@@ -197,6 +199,7 @@ CHECKS["C02"] = {
         enum_job("delete-retries", "./verifh/c02", "TestDeleteRetryExhaustive"),
         rapid_job("stress", "./verifh/c02", "TestStressLinearizable", 20000, 80000),
         rapid_job("counters", "./verifh/c02", "TestStressCounters", 1500, 5000, shards_t=8),
+        rapid_job("trait-counters", "./verifh/c02", "TestTraitCountersForced", 3000, 20000),
     ],
 }
 
@@ -213,6 +216,7 @@ CHECKS["C03"] = {
         rapid_job("delete-window", "./verifh/c03", "TestForcedDeleteWindow", 2500, 15000, shards_t=4, timeout={Q: 150, T: 1200}),
         rapid_job("stress", "./verifh/c03", "TestStressSubscribe", 1500, 10000, timeout={Q: 150, T: 1200}),
         rapid_job("burst", "./verifh/c03", "TestBurstConvergence", 150, 1200, shards={Q: 2, T: 8}, timeout={Q: 300, T: 1200}),
+        enum_job("paused-peer", "./verifh/c03", "TestPausedBackpressuredPeer"),
     ],
 }
 
@@ -230,6 +234,7 @@ CHECKS["C10"] = {
         rapid_job("bus-churn", "./verifh/c10", "TestBusChurn", 40, 150, shards={Q: 4, T: 12}, timeout={Q: 400, T: 2400}),
         rapid_job("resource", "./verifh/c10", "TestResourceShutdown", 1500, 10000, timeout={Q: 400, T: 2400}),
         rapid_job("resource-stress", "./verifh/c10", "TestResourceShutdownStress", 300, 2500, timeout={Q: 400, T: 2400}),
+        enum_job("quiet-subscriber", "./verifh/c10", "TestQuietBackpressuredSubscriber|TestAbandonedLossySubscriberManyIDs"),
     ],
 }
 
@@ -418,7 +423,7 @@ CHECKS["C11"] = {
     "assumptions": ["only executed interleavings are judged: no report is not proof of absence", "harness callbacks only read the messages they are given"],
     "jobs": [
         rapid_job("core", "./verifh/c11", "TestRaceValue|TestRaceCollection|TestRaceBus", 500, 2500, race=True, shards_t=8, postprocess=_c11_postprocess, timeout={"quick": 500, "thorough": 2400}),
-        rapid_job("stack", "./verifh/c11", "TestRaceRouterAndWrap|TestRaceWrappedClient|TestRaceGroup", 300, 1500, race=True, shards_t=8, postprocess=_c11_postprocess, timeout={"quick": 500, "thorough": 2400}),
+        rapid_job("stack", "./verifh/c11", "TestRaceRouterAndWrap|TestRaceWrappedClient|TestRaceGroup|TestRaceSharedPayload", 300, 1500, race=True, shards_t=8, postprocess=_c11_postprocess, timeout={"quick": 500, "thorough": 2400}),
         rapid_job("slow-callbacks", "./verifh/c11", "TestRaceSlowCallbacks", 4, 12, race=True, shards={"quick": 2, "thorough": 8}, postprocess=_c11_postprocess, timeout={"quick": 500, "thorough": 2400}),
         rapid_job("models", "./verifh/c11", "TestRaceModels", 400, 2000, race=True, shards_t=8, postprocess=_c11_postprocess, timeout={"quick": 500, "thorough": 2400}),
     ],
